@@ -476,6 +476,25 @@ impl FetchState {
             .collect::<BTreeSet<_>>();
         let mut failed_delegates = BTreeSet::new();
 
+        // N.b. remotes for which tips were fetched (e.g. `rad/id`), but for
+        // which no `rad/sigrefs` could be found, are not part of the signed
+        // refs below. None of their tips can be validated, so prune them.
+        let unsigned = self
+            .tips
+            .keys()
+            .filter(|remote| !signed_refs.contains_key(remote))
+            .copied()
+            .collect::<Vec<_>>();
+        for remote in unsigned {
+            log::debug!(target: "fetch", "Pruning {remote} tips, missing 'rad/sigrefs'");
+            failures.push(sigrefs::Validation::MissingRadSigRefs(remote));
+            self.prune(&remote);
+            if delegates.contains(&remote) {
+                valid_delegates.remove(&remote);
+                failed_delegates.insert(remote);
+            }
+        }
+
         // TODO(finto): this might read better if it got its own
         // private function.
         for remote in signed_refs.keys() {
